@@ -166,8 +166,10 @@ int svt_dec_out_buf(EbDecHandle *dec_handle_ptr, EbBufferHeaderType *p_buffer) {
         return 0;
     }
 
-    uint32_t wd = dec_handle_ptr->frame_header.frame_size.superres_upscaled_width;
-    uint32_t ht = dec_handle_ptr->frame_header.frame_size.frame_height;
+    /* the size of the picture that is output: frame_header may already describe a later
+       (possibly rejected) frame */
+    uint32_t wd = dec_handle_ptr->cur_pic_buf[0]->superres_upscaled_width;
+    uint32_t ht = dec_handle_ptr->cur_pic_buf[0]->frame_height;
     int      sx = 0, sy = 0;
     /* FilmGrain module req. even dim. for internal operation */
     int even_w = (wd & 1) ? (wd + 1) : wd;
